@@ -29,6 +29,22 @@ func init() {
 }
 
 func genC41(g *Gen) {
+	// steered: lifecycle-lock window widened by a long channel key (+ control), gateway stop with pinned workers
+	g.Case()
+	for i := 0; i < 2; i++ {
+		g.Count("steer:longkey")
+		g.Op("longkey", "%d %d", []int{48, 24}[i], g.R.U64()>>1)
+	}
+	g.Count("steer:longkey-control")
+	g.Op("longkey", "0 %d", g.R.U64()>>1)
+	for _, c := range [][3]int{{2, 2, 30}, {2, 3, 30}, {1, 1, 20}, {3, 3, 30}, {2, 1, 30}, {2, 0, 30}} {
+		if c[1] >= c[0] {
+			g.Count("steer:gwstop-workers-pinned")
+		} else {
+			g.Count("steer:gwstop-control")
+		}
+		g.Op("gwstop", "%d %d %d %d", c[0], c[1], c[2], g.R.U64()>>1)
+	}
 	for i := 0; i < g.N; i++ {
 		if i%6 == 0 {
 			g.Case()
@@ -280,6 +296,12 @@ func (*c41Runner) Close() {}
 
 func (*c41Runner) Step(op string) string {
 	f := strings.Fields(op)
+	if len(f) > 0 && f[0] == "longkey" {
+		return c41LongKey(f[1:])
+	}
+	if len(f) > 0 && f[0] == "gwstop" {
+		return c41GwStop(f[1:])
+	}
 	if len(f) != 12 || f[0] != "stop" {
 		return "bad-op"
 	}
